@@ -26,18 +26,34 @@ func MustParseDate(s string) Date {
 func ParseDate(s string) (Date, error) {
 	if s == "" {
 		return Date{}, fmt.Errorf("blank date string")
-	} else if date, err := time.ParseInLocation("2006-01-02", s, time.Local); err != nil {
+	} else if date, err := time.ParseInLocation("2006-01-02", s, time.UTC); err != nil {
 		return Date{}, err
 	} else {
-		return Date(date), nil
+		return Date(startOfDay(date.Year(), date.Month(), date.Day())), nil
 	}
 }
 
 // Utility function to explicitly construct a Date from year, month and day.
 func ToDate(year int, month time.Month, day int) Date {
-	date := time.Date(year, month, day, 0, 0, 0, 0, time.Local)
+	date := startOfDay(year, month, day)
 
 	return Date(date)
+}
+
+// Returns the start of the given date in the local timezone. In timezones where a DST
+// transition removes local midnight time.Date resolves 00:00 to an instant on the previous
+// day - in that case the first instant of the requested day is returned instead.
+func startOfDay(year int, month time.Month, day int) time.Time {
+	t := time.Date(year, month, day, 0, 0, 0, 0, time.Local)
+	noon := time.Date(year, month, day, 12, 0, 0, 0, time.Local)
+
+	if t.Day() != noon.Day() {
+		if start, _ := noon.ZoneBounds(); start.After(t) {
+			return start
+		}
+	}
+
+	return t
 }
 
 // Returns true if the date is the zero value.
@@ -145,10 +161,10 @@ func (d *Date) UnmarshalUT0311L0x(bytes []byte) (any, error) {
 		}
 	}
 
-	if date, err := time.ParseInLocation("20060102", decoded, time.Local); err != nil {
+	if date, err := time.ParseInLocation("20060102", decoded, time.UTC); err != nil {
 		return &Date{}, nil
 	} else {
-		v := Date(date)
+		v := Date(startOfDay(date.Year(), date.Month(), date.Day()))
 
 		return &v, nil
 	}
@@ -175,12 +191,12 @@ func (d *Date) UnmarshalJSON(bytes []byte) error {
 		return nil
 	}
 
-	date, err := time.ParseInLocation("2006-01-02", s, time.Local)
+	date, err := time.ParseInLocation("2006-01-02", s, time.UTC)
 	if err != nil {
 		return err
 	}
 
-	*d = Date(date)
+	*d = Date(startOfDay(date.Year(), date.Month(), date.Day()))
 
 	return nil
 }
